@@ -508,3 +508,21 @@ mod tests {
         );
     }
 }
+
+#[cfg(feature = "verif-hooks")]
+impl Array4 {
+    /// Verification hook: `(cur_min, num_at_cur_min, raw nibbles, aux entries, estimator)`.
+    #[allow(clippy::type_complexity)]
+    pub(super) fn verif_parts(&self) -> (u8, u32, Vec<u8>, Option<Vec<(u32, u8)>>, &HipEstimator) {
+        let k = 1u32 << self.lg_config_k;
+        let raw = (0..k).map(|s| self.get_raw(s)).collect();
+        let aux = self.aux_map.as_ref().map(|m| m.iter().collect());
+        (
+            self.cur_min,
+            self.num_at_cur_min,
+            raw,
+            aux,
+            &self.estimator,
+        )
+    }
+}
